@@ -120,6 +120,7 @@ type ReplayFile struct {
 	Toolchain  string      `json:"toolchain"`
 	Controlled bool        `json:"controlled"`
 	Minimised  bool        `json:"minimised"`
+	Flaky      bool        `json:"flaky,omitempty"` // reproduces only in some executions (library-internal nondeterminism)
 	TraceHash  string      `json:"trace_hash"`
 	Violations []Violation `json:"violations"`
 	Spec       Spec        `json:"spec"`
